@@ -1,6 +1,13 @@
-(* C18 -- render options are inert outside their documented place (renderer half).
-   Statements for ALL token lists.  Only statements and [exact]. *)
-From MD Require Import Base.Py Base.Str Base.Opt Model.Token Model.Utils Model.Render Lemmas.RenderLemmas.
+(* C18 -- inline text means the same in every block context; render options are inert outside
+   their documented place.  Context half, proved for the paragraph context: for EVERY line s that
+   starts with a letter, ends in a non-blank and has no line-end character, and every
+   configuration whose block chain contains the paragraph rule, parse(s LF) is paragraph_open,
+   inline, paragraph_close where the inline token has content s and children
+   join(inline_parse s) -- literally the children parseInline(s) gives its single inline token
+   (C18_paragraph_is_parse_inline: two equations with the same right-hand sub-term).  Renderer
+   half: statements for ALL token lists.  Only statements and [exact]. *)
+From MD Require Import Base.Py Base.Str Base.Opt Model.Token Model.Utils Model.Render Model.Core Model.StateBlock Model.Block Model.Inline Model.Pipeline
+     Lemmas.RenderLemmas Lemmas.NormalizeLemmas Lemmas.ParaLine.
 
 (* xhtmlOut: the tokens left behind are the same, and the outputs coincide once the two
    void-tag spellings (" /" and <br /> vs <br>) are erased *)
@@ -38,3 +45,19 @@ Theorem C18_langPrefix_local :
     Forall2 same_but_data c1 c2.
 Proof. exact render_fence_langPrefix. Qed.
 Print Assumptions C18_langPrefix_local.
+
+(* the paragraph context hands the inline parser the same string as inline mode, and keeps its result *)
+Theorem C18_paragraph_is_parse_inline :
+  forall cfg reformat casefold linktext s, line_ok s -> mem_z 13 s = false -> mem_z 0 s = false ->
+  forall pre post, c_rules (p_block cfg) = pre ++ nm_paragraph :: post ->
+    Forall (fun n => str_eqb n nm_paragraph = false) pre -> 0 < c_maxNesting (p_block cfg) ->
+    p_core cfg = [n_normalize; n_block; n_inline; n_text_join] ->
+  forall env,
+    parse cfg reformat casefold linktext (s ++ [10]) env
+    = (do toks <- inline_parse (p_inline cfg) reformat casefold linktext s env [];
+       Ok ([p_open; set_children (p_inl s) (Some (join_children toks)); p_close], env))
+    /\ parse_inline cfg reformat casefold linktext s env
+       = (do toks <- inline_parse (p_inline cfg) reformat casefold linktext s env [];
+          Ok ([set_children (i_inl s) (Some (join_children toks))], env)).
+Proof. exact paragraph_is_parse_inline. Qed.
+Print Assumptions C18_paragraph_is_parse_inline.
